@@ -50,7 +50,7 @@ Theorem binary_only_after_passing ph fuel sp base :
   front_ok ph = true /\ later_ok ph = true /\ exists rs sk stk, run_interp fuel sp base = TDone rs sk stk /\ all_passed rs = true.
 Proof.
   unfold nanoc. destruct (front_ok ph); simpl; [|contradiction].
-  destruct (run_interp fuel sp base) as [rs sk stk| | |]; try contradiction.
+  destruct (run_interp fuel sp base) as [rs sk stk| | | |? ?]; try contradiction.
   destruct (all_passed rs) eqn:A; [|contradiction]. destruct (later_ok ph); [|contradiction].
   intros _. repeat split. eexists _, _, _. split; [reflexivity|exact A].
 Qed.
@@ -85,10 +85,10 @@ Proof.
   induction shs as [|sh r IH]; intros stk rs sk stk' H; simpl in *.
   - inversion H. auto.
   - destruct (sh_skip sh) eqn:SK; simpl.
-    + destruct (run_tests fns fuel r stk) as [rs1 sk1 s1| | |] eqn:E; try discriminate. inversion H; subst.
+    + destruct (run_tests fns fuel r stk) as [rs1 sk1 s1| | | |? ?] eqn:E; try discriminate. inversion H; subst.
       destruct (IH _ _ _ _ E) as [A B]. split; [exact A|]. simpl. f_equal. exact B.
-    + destruct (iexec fns fuel (sh_body sh) (fresh_world stk)) as [c w| | |]; try discriminate.
-      destruct (run_tests fns fuel r (truncate (length stk) (w_stk w))) as [rs1 sk1 s1| | |] eqn:E; try discriminate. inversion H; subst.
+    + destruct (iexec fns fuel (sh_body sh) (fresh_world stk)) as [c w| | | |?]; try discriminate.
+      destruct (run_tests fns fuel r (truncate (length stk) (w_stk w))) as [rs1 sk1 s1| | | |? ?] eqn:E; try discriminate. inversion H; subst.
       destruct (IH _ _ _ _ E) as [A B]. split; [simpl; f_equal; exact A|exact B].
 Qed.
 
@@ -102,8 +102,9 @@ Proof.
   assert (M : In (fname d) (missing_shadow sp)).
   { unfold missing_shadow. apply in_map. apply filter_In. split; [exact Hd|]. rewrite Hs.
     destruct (N.eqb (fname d) (pmain (sp_prog sp))) eqn:E; [apply N.eqb_eq in E; contradiction|reflexivity]. }
-  destruct (run_interp fuel sp base) as [rs sk stk| | |]; try discriminate.
-  destruct (all_passed rs); [destruct (later_ok ph)|]; inversion H; subst; exact M.
+  destruct (run_interp fuel sp base) as [rs sk stk| | | |? ?]; try discriminate.
+  - destruct (all_passed rs); [destruct (later_ok ph)|]; inversion H; subst; exact M.
+  - inversion H; subst; exact M.
 Qed.
 
 (* ---- the gate against the REFERENCE truth values (through interp_correct) *)
